@@ -97,22 +97,25 @@ def t2_failing(pid):
     try:
         idx = json.load(open(os.path.join(workdir(), 'code_index.json')))
         for q, why in idx.get('lost', []):
+            if why.startswith('absent:'):
+                continue
             out.append('tie T2: %s is no longer translatable (%s), its refinement theorem cannot be re-checked' % (q, why))
     except Exception:
         pass
     cq = os.path.join(VERIF, 'coq')
-    r = sh('timeout 1200 make -k theories/CodeRefine.vo', cwd=cq, timeout=1300)
+    files = {'C02': ['CodeValidators', 'CodeSegPred'], 'C03': ['CodeValidators'], 'C05': ['CodeSegPred'], 'C08': ['CodeSegFlag']}[pid]
+    r = sh('timeout 1800 make -k -j4 ' + ' '.join('theories/%s.vo' % f for f in files), cwd=cq, timeout=1900)
     o = r.stdout + r.stderr
-    m = re.search(r'File "\./theories/CodeRefine\.v", line (\d+)', o)
+    m = re.search(r'File "\./theories/(Code\w+)\.v", line (\d+)', o)
     if m:
-        ln = int(m.group(1))
-        src = open(os.path.join(cq, 'theories', 'CodeRefine.v')).read().split('\n')
+        ln = int(m.group(2))
+        src = open(os.path.join(cq, 'theories', m.group(1) + '.v')).read().split('\n')
         name = None
         for i in range(min(ln, len(src)) - 1, -1, -1):
             mm = re.match(r'\s*(?:Theorem|Lemma)\s+(\w+)', src[i])
             if mm:
                 name = mm.group(1); break
-        out.append('tie T2: CodeRefine.%s (the translated C++ body evaluates in bounds to the model\'s result) no longer checks: %s' % (name, ' '.join(o[o.find('Error'):][:300].split())))
+        out.append('tie T2: %s.%s (the translated C++ body evaluates in bounds to the model\'s result) no longer checks: %s' % (m.group(1), name, ' '.join(o[o.find('Error'):][:300].split())))
     return out
 
 def gen_sync():
